@@ -327,6 +327,33 @@ func labelsFromSelectors(matches []labels.MatchType, selector *promParser.Vector
 	return names
 }
 
+// absentLabels returns the labels absent() and absent_over_time() copy to their result: equality matchers with
+// a non-empty value of a plain (matrix) selector argument, unless the label name is matched more than once.
+// Any other argument makes these functions return a series with no labels.
+func absentLabels(arg promParser.Expr) (names []string) {
+	var selector *promParser.VectorSelector
+	switch a := arg.(type) {
+	case *promParser.VectorSelector:
+		selector = a
+	case *promParser.MatrixSelector:
+		selector, _ = a.VectorSelector.(*promParser.VectorSelector)
+	}
+	if selector == nil {
+		return nil
+	}
+	count := map[string]int{}
+	for _, lm := range selector.LabelMatchers {
+		count[lm.Name]++
+	}
+	for _, lm := range selector.LabelMatchers {
+		if lm.Name == labels.MetricName || lm.Type != labels.MatchEqual || lm.Value == "" || count[lm.Name] > 1 {
+			continue
+		}
+		names = appendToSlice(names, lm.Name)
+	}
+	return names
+}
+
 func labelsWithEmptyValueSelector(selector *promParser.VectorSelector) (names []string) {
 	for _, lm := range selector.LabelMatchers {
 		if lm.Name == labels.MetricName {
@@ -531,7 +558,7 @@ func parsePromQLFunc(s Source, expr string, n *promParser.Call) Source {
 		s.FixedLabels = true
 		s.IncludedLabels = nil
 		s.GuaranteedLabels = nil
-		for _, name := range labelsFromSelectors([]labels.MatchType{labels.MatchEqual}, s.Selector) {
+		for _, name := range absentLabels(n.Args[0]) {
 			s = includeLabel(s, name)
 			s = guaranteeLabel(s, name)
 		}
